@@ -302,6 +302,41 @@ func VerifC05_WorkLaunchedBeforeStart() {
 	rt.Reach("prestart-end")
 }
 
+// ---- a stop that begins right after the start returned (G2, two
+// preemptions): the late bookkeeping of the start routine's goroutine must
+// not complete the stop ----
+
+func VerifC05_StopRightAfterStart() {
+	rt.NoTimers()
+	rt.SchedYieldOnly(true)
+	rt.Preemptions(2)
+	SetStdErrReporting(false)
+	c05Reset()
+	moduleStopTimeout = time.Hour
+	stopReturned := false
+	stopFails := rt.Bool("stopfails")
+	m := initNewModule("m", nil,
+		func() error { return nil },
+		func() error {
+			rt.Yield()
+			stopReturned = true
+			if stopFails {
+				return errors.New("stop failed")
+			}
+			return nil
+		})
+	m.status = StatusOffline
+	reports := make(chan *report, 2)
+	m.start(reports)
+	rt.Assert((<-reports).err == nil, "stopafterstart/start-ok")
+	m.stop(reports)
+	rep := <-reports
+	rt.Assert(stopReturned, "stopafterstart/stop-routine-returned-before-report")
+	rt.Assert((rep.err != nil) == stopFails, "stopafterstart/stop-result-reported")
+	rt.Assert(m.Status() == StatusOffline, "stopafterstart/offline")
+	rt.Reach("stopafterstart-end")
+}
+
 // the dependency keeps waiting while the dependent is stopping
 func VerifC05_DependencyWaits() {
 	m := initNewModule("m", nil, nil, nil)
